@@ -152,8 +152,11 @@ def gen_method(rnd: random.Random, spec: dict, tagdefs: list[tuple[str, str | No
                 return v
         return [u]
 
+    foreign_tags = [(t[0], t[1]) for t in EXTRA_TAGS if t[0] not in spec["tags"]] + [("Nosuchtag", None), ("FT02", "L/h")]
+    foreign_cmds = [c for c in CMD_POOL if c not in cmds] + ["Frobnicate", "Shrt"]
+
     def cond(assign=False):
-        name, unit = rnd.choice(tagdefs)
+        name, unit = rnd.choice(foreign_tags) if rnd.random() < p_bad / 3 else rnd.choice(tagdefs)
         op = "=" if assign else rnd.choice(["<", "<=", ">", ">=", "=", "!="])
         value = rnd.choice(["0", "1", "5", "0.5", "10", "100", "7", "41", "1.5"])
         if unit is None and rnd.random() < 0.15:
@@ -173,8 +176,8 @@ def gen_method(rnd: random.Random, spec: dict, tagdefs: list[tuple[str, str | No
         if r < 0.14:
             lines.append(f"{pad}Mark: m{n[0]}")
         elif r < 0.30 and cmds:
-            c = rnd.choice(cmds)
-            pool = CMD_ARGS[c]
+            c = rnd.choice(foreign_cmds) if rnd.random() < p_bad / 3 else rnd.choice(cmds)
+            pool = CMD_ARGS.get(c, [""])
             a = pick(pool[:max(1, len(pool) // 2)], pool)
             lines.append(f"{pad}{c}" + (f": {a}" if a != "" else ""))
         elif r < 0.40:
@@ -206,7 +209,7 @@ def gen_method(rnd: random.Random, spec: dict, tagdefs: list[tuple[str, str | No
             if rnd.random() < 0.7:
                 lines.append(f"{pad}Simulate: {cond(assign=True)}")
             else:
-                lines.append(f"{pad}Simulate off: {rnd.choice(tagdefs)[0]}")
+                lines.append(f"{pad}Simulate off: {(rnd.choice(foreign_tags) if rnd.random() < p_bad / 3 else rnd.choice(tagdefs))[0]}")
         elif r < 0.90:
             lines.append(pad + pick(["Increment run counter", "Run counter: 3", "Run counter: 0", "Run counter: 12"],
                                     ["Run counter: 3.5", "Run counter: -1", "Run counter: x", "Run counter: 1e1", "Run counter",
@@ -287,12 +290,24 @@ def classify(cls: str, d: dict, rig) -> str | None:
     units.BASE_VALID_UNITS) but not registered with the UOD's base_unit_provider -> NodeInterpretationError
     "Base instruction has invalid argument 'u'" attached to the Base node."""
     from openpectus.lang.exec.units import BASE_VALID_UNITS
+    import openpectus.lang.model.ast as p
     node = d["node"]
     if cls == "invalid_argument" and node is not None and node.instruction_name == "Base":
         m = re.search(r"Base instruction has invalid argument '([^']*)'", d["text"])
         if m and m.group(1) == node.arguments and m.group(1) in BASE_VALID_UNITS \
                 and m.group(1) not in rig.e.uod.base_unit_provider.get_units():
             return "C20.base_units_static_list"
+    # C20.percent_tag_vs_molpercent_condition: tag unit '%', condition unit 'mol%': are_comparable('%', 'mol%') is True
+    # (analysis and compare_values agree on that) but pint reads 'mol%' as mol * percent, the comparison of the two
+    # quantities raises and compare_values turns it into ValueError('Conversion error')
+    if cls == "incompatible_units" and isinstance(node, p.NodeWithCondition) and "Conversion error" in d["text"]:
+        c = node.tag_operator_value
+        try:
+            tag_unit = rig.e.tags[c.tag_name].unit
+        except Exception:
+            return None
+        if tag_unit == "%" and c.tag_unit == "mol%":
+            return "C20.percent_tag_vs_molpercent_condition"
     return None
 
 
